@@ -717,14 +717,30 @@ func (c *Ctx) checkCtorThresholds(fn *ssa.Function, stores map[string][]*ssa.Sto
 	}
 	// grow = shrink * bf (possibly both computed by one helper returning the pair)
 	gv, sv := g[0].Val, s[0].Val
-	if gi, _, ok := helperResult(gv); ok {
+	henv := map[*ssa.Parameter]ssa.Value{}
+	if gi, env, ok := helperResult(gv); ok {
 		if si, _, ok2 := helperResult(sv); ok2 && sameCall(gv, sv) {
 			gv, sv = gi, si
+			for k, v := range env {
+				henv[k] = v
+			}
 		}
 	}
 	if mul, ok := stripConv(gv).(*ssa.BinOp); ok && mul.Op == token.MUL {
 		if ir.Sym(stripConv(mul.X)) == ir.Sym(stripConv(sv)) || ir.Sym(stripConv(mul.Y)) == ir.Sym(stripConv(sv)) {
-			c.OK(P.InstrPos(g[0]), "growAfterSize = shrinkBelowSize·bf in "+ir.FuncName(fn), "same value multiplied once", false)
+			// the other factor is the tree's own branch factor (the record's), not a constant or another quantity
+			other := mul.Y
+			if ir.Sym(stripConv(mul.Y)) == ir.Sym(stripConv(sv)) {
+				other = mul.X
+			}
+			od := map[string]bool{}
+			rootFieldDepsE(other, map[ssa.Value]bool{}, od, henv, 0)
+			if od["BranchFactor"] && len(od) == 1 {
+				c.OK(P.InstrPos(g[0]), "growAfterSize = shrinkBelowSize·bf in "+ir.FuncName(fn), "same value multiplied once by Root.BranchFactor", false)
+			} else {
+				c.Violation(fn, P.InstrPos(g[0]), "growAfterSize is not shrinkBelowSize times the tree's branch factor",
+					"the factor between the two thresholds must be the branch factor recorded in the root: with a constant (the default 16) a reloaded tree of another branch factor grows at other sizes than the same tree kept in memory, so heights and root names diverge after further edits")
+			}
 		} else {
 			c.Violation(fn, P.InstrPos(g[0]), "growAfterSize is not shrinkBelowSize·branchFactor", "thresholds computed from different values")
 		}
